@@ -418,8 +418,10 @@ func walkAggregation(expr string, n *promParser.AggregateExpr) (src []Source) {
 			s.Operation = "count_values"
 			s.KnownReturn = false // the result is not the value of the aggregated sample
 			// Param is the label to store the count value in.
-			s = includeLabel(s, n.Param.(*promParser.StringLiteral).Val)
-			s = guaranteeLabel(s, n.Param.(*promParser.StringLiteral).Val)
+			if param, ok := stringLiteral(n.Param); ok {
+				s = includeLabel(s, param)
+				s = guaranteeLabel(s, param)
+			}
 			s = excludeLabel(s, "Aggregation removes metric name.", n.PosRange, labels.MetricName)
 			src = append(src, s)
 		}
@@ -598,11 +600,13 @@ If you're hoping to get instance specific labels this way and alert when some ta
 	case "label_replace", "label_join":
 		// One label added to the results.
 		s.Returns = promParser.ValueTypeVector
-		if v, ok := n.Args[2].(*promParser.StringLiteral); n.Func.Name == "label_replace" && ok && v.Val == "" {
+		if v, ok := stringLiteral(n.Args[2]); n.Func.Name == "label_replace" && ok && v == "" {
 			// An empty replacement removes the label when the regexp matches, so it's not guaranteed to be there.
 			break
 		}
-		s = guaranteeLabel(s, n.Args[1].(*promParser.StringLiteral).Val)
+		if dst, ok := stringLiteral(n.Args[1]); ok {
+			s = guaranteeLabel(s, dst)
+		}
 
 	case "pi":
 		s.Returns = promParser.ValueTypeScalar
@@ -1069,5 +1073,19 @@ func FindPosition(expr string, within posrange.PositionRange, fn string) posrang
 	return posrange.PositionRange{
 		Start: within.Start + posrange.Pos(idx[0]),
 		End:   within.Start + posrange.Pos(idx[1]-1),
+	}
+}
+
+// stringLiteral returns the value of a string argument, which can be wrapped in any number of parentheses.
+func stringLiteral(expr promParser.Expr) (string, bool) {
+	for {
+		switch v := expr.(type) {
+		case *promParser.ParenExpr:
+			expr = v.Expr
+		case *promParser.StringLiteral:
+			return v.Val, true
+		default:
+			return "", false
+		}
 	}
 }
